@@ -292,6 +292,21 @@ func quorumOf(thr uint64, isPos bool) uint64 {
 	return uint64(float64(thr) * c)
 }
 
+// specQuorum is the quorum the PROTOCOL prescribes, written down independently of the code under test:
+// 68.5 % of the committee size for precommits, 58.5 % for certificates, rounded down (for certificates one seat
+// of slack: the float64 nearest to 0.585 lies below it).
+func specQuorum(thr uint64, isPos bool) uint64 {
+	t := new(big.Int).SetUint64(thr)
+	if isPos {
+		return t.Mul(t, big.NewInt(137)).Div(t, big.NewInt(200)).Uint64()
+	}
+	q := t.Mul(t, big.NewInt(117)).Div(t, big.NewInt(200)).Uint64()
+	if q > 0 {
+		q--
+	}
+	return q
+}
+
 // oracle returns "" when the real verifier's verdict is consistent with the property, else what is violated.
 // cls is the class of the real verifier's answer ("ok", "err …", "crash").
 func oracle(s *sym, cls string) (what string, tag string) {
@@ -331,7 +346,7 @@ func oracle(s *sym, cls string) (what string, tag string) {
 		return "accepted without decodable votes", "votes"
 	}
 	w := oracleVotes(s, &s.uc[0], lb, s.seed, stepPrecommit, s.vT, s.bls, s.uc[0].roundIndex)
-	q := quorumOf(s.vT, true)
+	q := specQuorum(s.vT, true)
 	if w.Cmp(new(big.Int).SetUint64(q)) < 0 {
 		tag := "quorum"
 		if s.dvT != s.vT {
@@ -352,7 +367,7 @@ func oracle(s *sym, cls string) (what string, tag string) {
 		// the certificate votes are verified under header.Validator's round index and the committee size declared on
 		// the (trusted, already accepted) certificate look-back header
 		cw := oracleVotes(s, &s.uc[1], s.lb[1], s.certSeed, stepCertificate, s.certT, yp.EnableBls, s.uc[0].roundIndex)
-		cq := quorumOf(s.certT, false)
+		cq := specQuorum(s.certT, false)
 		if cw.Cmp(new(big.Int).SetUint64(cq)) < 0 {
 			return fmt.Sprintf("certificate round accepted with certificate weight %s < %d (size declared on the look-back header %d)", cw, cq, s.certT), "cert-quorum"
 		}
